@@ -44,6 +44,11 @@ void run_one(const Case &c, const std::vector<long long> &units, bool checkDrift
     ++g_calls;
     size_t n = gr_count_unicode_characters(gr_encform(usz), p, c.endGiven ? g.end() : 0, &err);
     long erroff = err ? long(((const uint8_t *)err - p) / usz) + 1 : 0;     // 1-based unit index, 0 = none
+    {   // pError is optional: the same call without it returns the same count (and reads no more of the buffer)
+        const size_t n0 = gr_count_unicode_characters(gr_encform(usz), p, c.endGiven ? g.end() : 0, 0);
+        if (n0 != n) { vj::W w; w.i("enc", c.enc).arr("buf", units).b("endGiven", c.endGiven).i("count", (long long)n).i("count_without_perror", (long long)n0);
+                       report_fail("C11", "the count depends on whether pError is given", w.done()); }
+    }
     // the same call on a copy that starts right behind an inaccessible page: nothing in front of the text is read,
     // and the answer does not depend on where the text lies
     if (units.size() <= 8) {
